@@ -83,6 +83,11 @@ add("C10", "runtime monitor: reference replay of the same report stream and chec
     "Threshold comparisons carry 1e-9 hysteresis (near-threshold cases become 'may'); a report arriving exactly at a check instant may be ordered either way; error estimates stay nominal (C11 covers extremes).",
     "DESIGN.md 3/C10")
 
+add("C11", "runtime monitor: element-by-element mapping oracle (TS 102 894-2 codes) over the decoded payload of every BTP request produced by the real CA, VRU and DEN transmission paths",
+    "Exploration: reports with latitude/longitude over the full signed range, altitude -1000..10000 m, speed 0..200 m/s, track 0..360, error estimates 0..hundreds (boundary-biased and log-uniform so that every confidence class is hit) and every subset of optional keys are fed to the real CAMTransmissionManagement (two CAMs per report, with LF container and path history), VAMTransmissionManagement (clustering off / standalone / leader / leader in break-up / joining / join cancelled / leaving) and DENM generation (emergency-vehicle application and collision-risk request); every payload is decoded with the repository's UPER coder and compared with the oracle: in-range values within 1 LSB, out-of-range/unavailable inputs mapped to the element's codes, station data, LF container, cluster information/operation containers, GBC area at the event position; any raise, skipped CAM or missing message is a violation. GenerationDeltaTime reconstruction is checked for ages 0..65 s across wrap-arounds.",
+    "asn1tools is the only UPER decoder available (a symmetric codec bug is invisible); confidence-class boundaries accept either neighbour; ellipse orientation and cluster radius unit are not judged.",
+    "DESIGN.md 3/C11")
+
 NOT_YET = "check not built yet (work in progress; runtime monitor planned in DESIGN.md section 3)"
 
 def main():
